@@ -638,7 +638,76 @@ def _one(F, name, exact=True):
     return c[0]
 
 
+def r3_12(F, R):
+    from ..pps_run import run_pps
+    R.rule("R3.12", "lexing never panics or exhausts its trace keys: every potential-panic site (explicit panics, unwrap family, assert terminators, "
+                    "overflow/bounds checks, curated panicking std calls) of the scanner (token::lexer) and the tracer (token::trace) reachable from "
+                    "Lexer::{new, next, end} and Tracer::{register_source_code, trace, trace_end_of_input} is discharged, audited with a per-site "
+                    "invariant, or a reproduced finding")
+    entries = ["texlang::token::lexer::Lexer::new", "texlang::token::lexer::Lexer::next", "texlang::token::lexer::Lexer::end",
+               "texlang::token::trace::Tracer::register_source_code", "texlang::token::trace::Tracer::trace", "texlang::token::trace::Tracer::trace_end_of_input"]
+    have = [e for e in entries if [f for f in F.fns.values() if strip_generics(f.name) == e]]
+    if len(have) < 5:
+        raise AnchorError("R3.12: entry points missing: %s" % (set(entries) - set(have)))
+    run_pps(F, R, "R3.12", have, ("K1", "K2", "K3", "K4"), {"texlang.lib"}, crate_scope={"texlang.lib"}, armed=lambda fn, s: True,
+            fn_filter=lambda fn: "texlang::token::lexer::" in fn.name or "texlang::token::trace::" in fn.name,
+            floor_fns=20, floor_sites=20, what=": any source text must lex without a panic")
+
+
+def r3_13(F, R):
+    R.rule("R3.13", "category codes apply at the moment a character is scanned (TeX §343: cat_code(cur_chr) is read when the character is "
+                    "fetched): the category code stored in a RawToken is, on every path, the result of a Config::cat_code call made in the same "
+                    "function (or closure) that builds the token — never a value carried over in the lexer's state, a parameter or a constant, "
+                    "which would be stale after a \\catcode change between two calls")
+    n = 0
+    for fn in F.fns.values():
+        if not fn.name.startswith("texlang::token::lexer::") or "::tests::" in fn.name or fn.name.startswith("texlang::token::lexer::_::"):
+            continue
+        D = Defs(fn)
+        k_fn = 0
+        for bi, b in enumerate(fn.blocks):
+            for st in b["s"]:
+                if st["k"] != "=" or st["rv"]["k"] != "agg" or not str(st["rv"].get("adt", "")).endswith("lexer::RawToken"):
+                    continue
+                for o in st["rv"]["ops"]:
+                    pl = op_place(o)
+                    if pl is None or pl["p"] or not fn.local_ty(pl["l"]).endswith("catcode::CatCode"):
+                        if pl is None and "c" in o and "CatCode" in str(o):
+                            R.violation("R3.13", fn.name.replace("texlang::token::lexer::", "") + "/const", "a RawToken is built with a constant category code", fn.loc(st))
+                        continue
+                    n += 1
+                    inst = "%s/code#%d" % (fn.name.replace("texlang::token::lexer::", ""), k_fn)
+                    k_fn += 1
+                    # walk back through copies/moves; every definition must be a cat_code call
+                    todo, seen, bad = [pl["l"]], set(), []
+                    while todo:
+                        l = todo.pop()
+                        if l in seen:
+                            continue
+                        seen.add(l)
+                        ds = D.defs.get(l, [])
+                        if not ds:
+                            bad.append("an argument or captured value (_%d)" % l)
+                        for d in ds:
+                            if d[0] == "call":
+                                cn = strip_generics(callee_name(d[3]) or "")
+                                if not cn.endswith("Config::cat_code") and not cn.endswith("::cat_code"):
+                                    bad.append("the result of %s" % cn)
+                            elif d[3]["k"] == "=" and d[3]["rv"]["k"] == "use" and op_place(d[3]["rv"]["op"]) is not None and not op_place(d[3]["rv"]["op"])["p"] and not d[3]["lhs"]["p"]:
+                                todo.append(op_place(d[3]["rv"]["op"])["l"])
+                            else:
+                                bad.append("`%s`" % fn.snippet(d[3])[:60] if hasattr(fn, "snippet") else "a computed or stored value at %s" % fn.loc(d[3]))
+                    if bad:
+                        R.violation("R3.13", inst, "%s builds a RawToken whose category code comes from %s instead of a fresh Config::cat_code lookup: after a "
+                                    "\\catcode change between two calls the character is classified with the old code" % (fn.name, "; ".join(sorted(set(bad)))), fn.loc(st))
+                    else:
+                        R.ok("R3.13", inst, "category code defined only by Config::cat_code in this function", fn.loc(st), how="provenance")
+    R.floor("R3.13", "RawToken constructions with a category code", n, 2)
+
+
 def run(F, R, tier):
+    r3_13(F, R)
+    r3_12(F, R)
     r3_1(F, R)
     r3_2(F, R)
     r3_3(F, R)
